@@ -154,7 +154,7 @@ def run(ctx):
     jmenu = [("j2", [1, L], 0), ("j3", [L], 0), ("j2zero", [L], 0)]
     if ctx.thorough:
         jmenu = [("j2", [1, 2, L], 1), ("j3", [1, L], 1), ("j2zero", [L], 0), ("j1", [L], 0)]
-    ps = ml.e2_plans(ctx, jmenu, MONS, entry="front", conform=False)
+    ps = ml.e2_plans(ctx, jmenu, MONS, entry="front", conform=True)
     ml.explore(ctx, ps)
     ml.e2_describe(ctx, ps)
     ctx.cov["rule"] = (
